@@ -469,6 +469,9 @@ def _workload(tier, rng, shard, nshards, work):
         blank = k % 2 == 0
         style = rng.choice(["plain", "plain", "exp"])
         text = K.write_klattgrid(spec, blank, style)
+        if k % 7 == 3:
+            text = text.rstrip()  # no final line break (and no trailing blanks)
+            REC.cls("C19:kg:no-final-line-break")
         fn = os.path.join(str(work), "syn%d.KlattGrid" % (k % 3))
         with open(fn, "w", encoding="utf-8") as fd:
             fd.write(text)
